@@ -8,6 +8,7 @@
    invent an index.  Which StorageSlot nodes the passes create is the stage half: only at or below an executed storage access
    (C05_lifts_only_under_access), with literal keys taken from key constants, table preimages and constant additions outside
    the known class K3 (C05_lifts_only_in_keys_outside_K3, K3_refuted). *)
+From Coq Require Import String.
 From SLX Require Import Base gen.Constants SymVal Disasm VM Fold PassesSlots Register AbiT Layout Abi Pipeline TcCases.
 From SLX.proofs Require Import PipelineAttribution.
 Open Scope N_scope.
@@ -37,6 +38,20 @@ Proof.
   intros l w x H. unfold assign_vars in H.
   destruct (reg_list_exprs_from l empty_tcs RegisterProofs.inv_empty w x H) as [[]|G]. exact G.
 Qed.
+
+(* non-vacuity: `sstore(0, caller); sstore(1, sload(0) & (2^160 - 1))` -- the lifted values of the run contain StorageSlot nodes
+   with the literal keys 0 and 1 and with no other key below 8, and the layout has exactly those two indices *)
+Example pipeline_attribution_hyps_met :
+  let p := [51;95;85;115;255;255;255;255;255;255;255;255;255;255;255;255;255;255;255;255;255;255;255;255;95;84;22;96;1;85;0] in
+  let tr := analyze_trace (fun _ => 0) [] MSorted default_fuels p (mk_config 30000000 10 50 250 394 false 100 None) in
+  t_result tr = PLayout [(0, 0, AT "Address" [] []); (1, 0, AT "Address" [] [])] /\
+  match t_lifted tr with
+  | Some lifted =>
+      map (fun c => existsb (fun v => existsb (sv_eqb (slot_sv c)) (subterms v)) lifted) [0; 1; 2; 3; 4; 5; 6; 7]
+      = [true; true; false; false; false; false; false; false]
+  | None => False
+  end.
+Proof. vm_compute. split; reflexivity. Qed.
 
 Print Assumptions pipeline_rows_attributed.
 Print Assumptions register_only_subterms.
